@@ -65,11 +65,11 @@ def cases(tier, seed):
     for d in (1, 2, 3, 4):
         shapes += [list(s) for s in itertools.product((1, 2, 3, 4, 6), repeat=d)]
     rng.shuffle(shapes)
-    for si, N in enumerate(shapes[:(160 if not T else len(shapes))]):
+    for si, N in enumerate(shapes[:(450 if not T else len(shapes))]):
         n = dn.prod(N)
         facs = factorizations(n)
         rng.shuffle(facs)
-        for fi, f in enumerate(facs[:(4 if not T else 14)]):
+        for fi, f in enumerate(facs[:(5 if not T else 20)]):
             for tgt in with_ones(f, rng, allv=(fi == 0 and si % 4 == 0)):
                 i = len(cs)
                 cs.append({'gen': 'reshape_t', 'N': N, 'target': tgt, 'eps': EPS[i % 6], 'vals': ['gauss', 'decay', 'int', 'graded', 'tiny', 'decay', 'huge'][i % 7], 'dtype': DTS[(i // 4) % 4]})
@@ -77,7 +77,7 @@ def cases(tier, seed):
     for (N, tgt) in [([16384], [128, 128]), ([2, 14400], [2, 120, 120])] + ([([3, 12100, 2], [3, 110, 110, 2])] if T else []):
         cs.append({'gen': 'reshape_t', 'N': N, 'target': tgt, 'eps': None, 'vals': 'gauss', 'dtype': 'f64', 'fullrank': True})
     # reshape operators
-    for i in range(300 if not T else 6000):
+    for i in range(1500 if not T else 20000):
         d = rng.randint(1, 3)
         M = [rng.choice((1, 2, 3, 4)) for _ in range(d)]
         N = [rng.choice((1, 2, 3, 4)) for _ in range(d)]
@@ -100,14 +100,12 @@ def cases(tier, seed):
             perms = perms[:240]
         for pi, p in enumerate(perms):
             for ttm in ((False, True) if d <= 4 else (False,)):
-                if not T and d == 5 and pi % 2:
-                    continue
                 i = len(cs)
                 pool = (1, 2, 3, 4, 5) if d <= 4 else (1, 2, 3)
                 cs.append({'gen': 'permute', 'N': gens.modes(rng, d, pool, distinct=(pi % 3 != 0)), 'M': [rng.choice((1, 2, 3)) for _ in range(d)] if ttm else None, 'perm': list(p),
                            'eps': [None, 1e-12, 1e-8, 1e-3, 1e-1][i % 5], 'vals': ['gauss', 'decay', 'int', 'tiny', 'huge', 'decay', 'tiny'][i % 7], 'dtype': DTS[(i // 5) % 4]})
     # QTT
-    for i in range(150 if not T else 2500):
+    for i in range(600 if not T else 8000):
         d = rng.randint(1, 3)
         N = [rng.choice((1, 2, 4, 8, 16) if d < 3 else (1, 2, 4, 8)) for _ in range(d)]
         cs.append({'gen': 'qtt', 'N': N, 'ttm': i % 4 == 3, 'eps': [None, 1e-10, 1e-4, 1e-1][i % 4], 'vals': ['gauss', 'decay', 'tiny'][i % 3], 'dtype': DTS[(i // 4) % 4], 'ms': 2})
